@@ -36,7 +36,7 @@ theorem take_add' {α} (l : List α) (d k : Nat) : l.take (d + k) = l.take d ++ 
 
 /-! ### laws an instance of `Fmt` has to satisfy -/
 
-structure Laws (F : Fmt) (WF : Bytes → Prop) : Prop where
+structure Laws (F : Fmt) (WF : Bytes → Prop) (AL : Bytes → Prop) : Prop where
   /-- a complete pending buffer yields a positive cut inside the buffer … -/
   cut_pos : ∀ c, F.complete c = true → 0 < F.cutLen c ∧ F.cutLen c ≤ c.length
   /-- … that ends right after a newline -/
@@ -46,6 +46,10 @@ structure Laws (F : Fmt) (WF : Bytes → Prop) : Prop where
   /-- the terminated remainder is complete and is consumed whole (only the marker is cut off) -/
   wf_final : ∀ r, WF r → r ≠ [] →
     F.complete (fixEnd F r) = true ∧ F.cutLen (fixEnd F r) = (addNL r).length
+  /-- what is delivered is entry-aligned (`AL`): a cut prefix … -/
+  cut_al : ∀ c, F.complete c = true → AL (c.take (F.cutLen c))
+  /-- … and the terminated well-formed remainder -/
+  final_al : ∀ r, WF r → r ≠ [] → AL (addNL r)
 
 /-! ### the inner loop -/
 
@@ -60,7 +64,7 @@ def AccPost (F : Fmt) (file : Bytes) (lp d : Nat) : Option (Bytes × Nat × Bool
 /-- specification of `accumulate` under the repaired end-of-file rule.
 `r` is the remaining file content from the logical position `lp`; `d` bytes of it are already
 pending in `acc`. -/
-theorem accumulate_spec (F : Fmt) (WF : Bytes → Prop) (L : Laws F WF) (file : Bytes) (k : Nat) (hk : 0 < k)
+theorem accumulate_spec (F : Fmt) (WF : Bytes → Prop) (AL : Bytes → Prop) (L : Laws F WF AL) (file : Bytes) (k : Nat) (hk : 0 < k)
     (lp : Nat) (hwf : WF (file.drop lp)) :
     ∀ (fuel d : Nat) (acc : Bytes) (finPrev : Bool),
       lp + d ≤ file.length → acc = (file.drop lp).take d →
@@ -170,16 +174,16 @@ structure Inv (file : Bytes) (s : St) (lp : Nat) : Prop where
   carry : s.carry = (file.drop lp).take s.carry.length
   fin : s.finished = true → s.pos = file.length ∧ s.carry = []
 
-theorem readChunk_spec (F : Fmt) (WF : Bytes → Prop) (L : Laws F WF) (mode : Mode) (file : Bytes)
+theorem readChunk_spec (F : Fmt) (WF : Bytes → Prop) (AL : Bytes → Prop) (L : Laws F WF AL) (mode : Mode) (file : Bytes)
     (k : Nat) (hk : 0 < k) (s : St) (lp : Nat) (hI : Inv file s lp) (hwf : WF (file.drop lp)) :
     match readChunk F true mode file k s with
     | none => file.drop lp = []
     | some (out, s') =>
       (∃ n, 0 < n ∧ out = (file.drop lp).take n ∧ out.length = n ∧ out.getLast? = some NL ∧
-        Inv file s' (lp + n) ∧ WF (file.drop (lp + n)) ∧ lp + n ≤ file.length) ∨
-      (out = addNL (file.drop lp) ∧ file.drop lp ≠ [] ∧ Inv file s' file.length ∧ s'.finished = true) := by
+        Inv file s' (lp + n) ∧ WF (file.drop (lp + n)) ∧ lp + n ≤ file.length ∧ AL out) ∨
+      (out = addNL (file.drop lp) ∧ file.drop lp ≠ [] ∧ Inv file s' file.length ∧ s'.finished = true ∧ AL out) := by
   unfold readChunk
-  have hspec := accumulate_spec F WF L file k hk lp hwf (file.length + 2) s.carry.length s.carry s.finished
+  have hspec := accumulate_spec F WF AL L file k hk lp hwf (file.length + 2) s.carry.length s.carry s.finished
     (by rw [hI.pos]; exact hI.le) hI.carry
     (by intro h; have := hI.fin h; rw [hI.pos]; refine ⟨this.1, ?_⟩; rw [this.2]; rfl)
     (by omega)
@@ -201,10 +205,12 @@ theorem readChunk_spec (F : Fmt) (WF : Bytes → Prop) (L : Laws F WF) (mode : M
       obtain ⟨hp, hrne, hchunk⟩ := hf rfl
       have hfinal := L.wf_final r hwf hrne
       simp only [↓reduceIte]
-      refine ⟨?_, hrne, ⟨by simp [hp], by simp [hp], by simp, by intro _; simp [hp]⟩, trivial⟩
-      rw [hchunk, hfinal.2]
-      unfold fixEnd
-      simp
+      have hout : (chunk.take (F.cutLen chunk)) = addNL r := by
+        rw [hchunk, hfinal.2]
+        unfold fixEnd
+        simp
+      refine ⟨hout, hrne, ⟨by simp [hp], by simp [hp], by simp, by intro _; simp [hp]⟩, trivial, ?_⟩
+      rw [hout]; exact L.final_al r hwf hrne
     | false =>
       left
       obtain ⟨hchunk, hlt⟩ := hnf rfl
@@ -220,7 +226,8 @@ theorem readChunk_spec (F : Fmt) (WF : Bytes → Prop) (L : Laws F WF) (mode : M
       have hwf' := L.wf_drop r chunk hwf hpre hcomp
       rw [← hn] at hwf'
       have hdd : r.drop n = file.drop (lp + n) := by rw [hr, List.drop_drop]
-      refine ⟨n, hcp.1, ?_, ?_, ?_, ?_, ?_, by omega⟩
+      have hal := L.cut_al chunk hcomp
+      refine ⟨n, hcp.1, ?_, ?_, ?_, ?_, ?_, by omega, hal⟩
       · simp only [← hn]; exact hout
       · simp only [← hn]; rw [List.length_take]; omega
       · simp only [← hn]; exact hnl
@@ -238,10 +245,10 @@ theorem readChunk_spec (F : Fmt) (WF : Bytes → Prop) (L : Laws F WF) (mode : M
 /-! ### the whole read -/
 
 /-- a finished reader delivers nothing more -/
-theorem readChunk_finished (F : Fmt) (WF : Bytes → Prop) (L : Laws F WF) (mode : Mode) (file : Bytes)
+theorem readChunk_finished (F : Fmt) (WF : Bytes → Prop) (AL : Bytes → Prop) (L : Laws F WF AL) (mode : Mode) (file : Bytes)
     (k : Nat) (hk : 0 < k) (s : St) (hI : Inv file s file.length) (hwf : WF []) :
     readChunk F true mode file k s = none := by
-  have h := readChunk_spec F WF L mode file k hk s file.length hI (by simpa using hwf)
+  have h := readChunk_spec F WF AL L mode file k hk s file.length hI (by simpa using hwf)
   revert h
   cases readChunk F true mode file k s with
   | none => intro _; rfl
@@ -252,18 +259,18 @@ theorem readChunk_finished (F : Fmt) (WF : Bytes → Prop) (L : Laws F WF) (mode
     · simp at hout; rw [hout] at hlen; simp at hlen; omega
     · simp at hne
 
-theorem readLoop_spec (F : Fmt) (WF : Bytes → Prop) (L : Laws F WF) (hnil : WF []) (mode : Mode)
+theorem readLoop_spec (F : Fmt) (WF : Bytes → Prop) (AL : Bytes → Prop) (L : Laws F WF AL) (hnil : WF []) (mode : Mode)
     (file : Bytes) (k : Nat) (hk : 0 < k) :
     ∀ (fuel : Nat) (s : St) (lp : Nat), Inv file s lp → WF (file.drop lp) →
       (lp = 0 ∨ (file.take lp).getLast? = some NL) → lp ≤ file.length → file.length - lp < fuel →
       file.take lp ++ (readLoop F true mode file k fuel s).flatten = norm file ∧
-      ∀ c ∈ readLoop F true mode file k fuel s, c ≠ [] ∧ c.getLast? = some NL := by
+      ∀ c ∈ readLoop F true mode file k fuel s, c ≠ [] ∧ c.getLast? = some NL ∧ AL c := by
   intro fuel
   induction fuel with
   | zero => intro s lp _ _ _ _ hf; omega
   | succ fuel ih =>
     intro s lp hI hwf hJ hle hfuel
-    have hspec := readChunk_spec F WF L mode file k hk s lp hI hwf
+    have hspec := readChunk_spec F WF AL L mode file k hk s lp hI hwf
     unfold readLoop
     revert hspec
     cases hrc : readChunk F true mode file k s with
@@ -285,7 +292,7 @@ theorem readLoop_spec (F : Fmt) (WF : Bytes → Prop) (L : Laws F WF) (hnil : WF
     | some res =>
       obtain ⟨out, s'⟩ := res
       intro h
-      rcases h with ⟨n, hn, hout, hlen, hnl, hI', hwf', hle'⟩ | ⟨hout, hne, hI', hfin'⟩
+      rcases h with ⟨n, hn, hout, hlen, hnl, hI', hwf', hle', hal⟩ | ⟨hout, hne, hI', hfin', hal⟩
       · have hone : out ≠ [] := by intro e; rw [e] at hlen; simp at hlen; omega
         have hemp : out.isEmpty = false := by simp [hone]
         simp only [hemp, Bool.false_eq_true, ↓reduceIte, List.flatten_cons, List.mem_cons, forall_eq_or_imp]
@@ -293,7 +300,7 @@ theorem readLoop_spec (F : Fmt) (WF : Bytes → Prop) (L : Laws F WF) (hnil : WF
           right
           rw [take_add', ← hout, getLast?_append_of_ne_nil _ _ hone]; exact hnl
         have := ih s' (lp + n) hI' hwf' hJ' hle' (by omega)
-        refine ⟨?_, ⟨hone, hnl⟩, this.2⟩
+        refine ⟨?_, ⟨hone, hnl, hal⟩, this.2⟩
         rw [← this.1, take_add', ← hout, List.append_assoc]
       · have hone : out ≠ [] := by rw [hout]; exact addNL_ne_nil _
         have hemp : out.isEmpty = false := by simp [hone]
@@ -303,10 +310,10 @@ theorem readLoop_spec (F : Fmt) (WF : Bytes → Prop) (L : Laws F WF) (hnil : WF
           | zero => rfl
           | succ f =>
             unfold readLoop
-            rw [readChunk_finished F WF L mode file k hk s' hI' hnil]
+            rw [readChunk_finished F WF AL L mode file k hk s' hI' hnil]
         rw [hrest]
         simp only [List.flatten_nil, List.append_nil, List.not_mem_nil, false_imp_iff, implies_true, and_true]
-        refine ⟨?_, hone, by rw [hout]; exact addNL_getLast _⟩
+        refine ⟨?_, hone, by rw [hout]; exact addNL_getLast _, hal⟩
         rw [hout, ← addNL_append _ _ hne, List.take_append_drop]
         unfold norm
         have : file ≠ [] := by intro e; rw [e] at hne; simp at hne
@@ -314,13 +321,13 @@ theorem readLoop_spec (F : Fmt) (WF : Bytes → Prop) (L : Laws F WF) (hnil : WF
 
 /-- **C01.readAll_bytes** — for every format satisfying the laws, every well-formed file, every
 chunk size `k ≥ 1` and both modes: the delivered chunks concatenate to exactly the
-newline-terminated file (nothing lost, duplicated or reordered), and every chunk is non-empty
-and ends at an entry boundary (after a newline). -/
-theorem readAll_bytes (F : Fmt) (WF : Bytes → Prop) (L : Laws F WF) (hnil : WF []) (mode : Mode)
+newline-terminated file (nothing lost, duplicated or reordered), and every chunk is non-empty,
+ends after a newline and is entry-aligned (`AL`: a whole number of entries). -/
+theorem readAll_bytes (F : Fmt) (WF : Bytes → Prop) (AL : Bytes → Prop) (L : Laws F WF AL) (hnil : WF []) (mode : Mode)
     (file : Bytes) (hwf : WF file) (k : Nat) (hk : 0 < k) :
     (readAll F true mode file k).flatten = norm file ∧
-    ∀ c ∈ readAll F true mode file k, c ≠ [] ∧ c.getLast? = some NL := by
-  have h := readLoop_spec F WF L hnil mode file k hk (file.length + 2) init 0
+    ∀ c ∈ readAll F true mode file k, c ≠ [] ∧ c.getLast? = some NL ∧ AL c := by
+  have h := readLoop_spec F WF AL L hnil mode file k hk (file.length + 2) init 0
     ⟨by simp [init], by simp [init], by simp [init], by simp [init]⟩ (by simpa using hwf) (Or.inl rfl)
     (by omega) (by omega)
   simpa [readAll] using h
@@ -495,7 +502,7 @@ theorem mult_facts (n cnt : Nat) (hn : 0 < n) (hle : n ≤ cnt) :
   refine ⟨by omega, by omega, ?_⟩
   rw [h4]; exact Nat.dvd_mul_right n _
 
-theorem kLine_laws (n : Nat) (hn : 0 < n) : Laws (Fmt.kLine n) (WFk n) where
+theorem kLine_laws (n : Nat) (hn : 0 < n) : Laws (Fmt.kLine n) (WFk n) (fun c => n ∣ countNL c) where
   cut_pos := by
     intro c hc
     simp only [Fmt.kLine, decide_eq_true_eq] at hc ⊢
@@ -552,6 +559,21 @@ theorem kLine_laws (n : Nat) (hn : 0 < n) : Laws (Fmt.kLine n) (WFk n) where
     refine ⟨hle, ?_⟩
     rw [hmod, Nat.sub_zero]
     exact prefix_all _ (addNL_getLast r)
+  cut_al := by
+    intro c hc
+    simp only [Fmt.kLine, decide_eq_true_eq] at hc ⊢
+    have hm := mult_facts n (countNL c) hn hc
+    rw [(prefix_spec c _ hm.1 hm.2.1).2.2.2]
+    exact hm.2.2
+  final_al := by
+    intro r hwf hrne
+    unfold WFk at hwf
+    have h2 : norm r = addNL r := by
+      unfold norm
+      have : r.isEmpty = false := by simp [hrne]
+      rw [this]; simp
+    rw [h2] at hwf
+    exact hwf
 
 /-- **C01.readAll_bytes_kLine** — FASTQ (n = 4), two-line FASTA (n = 2) and delimited (n = 1)
 files whose line count is a multiple of `n`: for EVERY chunk size and both modes the chunks
@@ -559,8 +581,8 @@ concatenate to the newline-terminated file; each chunk is non-empty and newline-
 theorem readAll_bytes_kLine (n : Nat) (hn : 0 < n) (mode : Mode) (file : Bytes)
     (hwf : n ∣ countNL (norm file)) (k : Nat) (hk : 0 < k) :
     (readAll (Fmt.kLine n) true mode file k).flatten = norm file ∧
-    ∀ c ∈ readAll (Fmt.kLine n) true mode file k, c ≠ [] ∧ c.getLast? = some NL :=
-  readAll_bytes (Fmt.kLine n) (WFk n) (kLine_laws n hn) (by simp [WFk, norm, countNL]) mode file hwf k hk
+    ∀ c ∈ readAll (Fmt.kLine n) true mode file k, c ≠ [] ∧ c.getLast? = some NL ∧ n ∣ countNL c :=
+  readAll_bytes (Fmt.kLine n) (WFk n) (fun c => n ∣ countNL c) (kLine_laws n hn) (by simp [WFk, norm, countNL]) mode file hwf k hk
 
 /-- **C01.readAll_delimited** — every byte string is a well-formed delimited file: for every
 file, chunk size and mode, the lines of the delivered chunks in order are exactly the lines of
@@ -568,10 +590,178 @@ the newline-terminated file: no entry lost, duplicated or reordered. -/
 theorem readAll_delimited (mode : Mode) (file : Bytes) (k : Nat) (hk : 0 < k) :
     ((readAll (Fmt.kLine 1) true mode file k).map linesOf).flatten = linesOf (norm file) := by
   have h := readAll_bytes_kLine 1 (by omega) mode file (Nat.one_dvd _) k hk
-  rw [lines_chunks _ h.2, h.1]
+  rw [lines_chunks _ (fun c hc => ⟨(h.2 c hc).1, (h.2 c hc).2.1⟩), h.1]
 
 /-! non-vacuity: a FASTQ-shaped file satisfies the hypothesis and is read in 3 chunks -/
 example : 4 ∣ countNL (norm [64,97,10,65,10,43,10,73,10,64,98,10,67,10,43,10,73]) := by decide
 example : (readAll (Fmt.kLine 4) true .carry [64,97,10,65,10,43,10,73,10,64,98,10,67,10,43,10,73] 5).length = 2 := by decide
+
+end C01
+
+/-! ### the wrapped-FASTA instance satisfies the laws (every byte string; the code's
+`assert chunk[0] == '>'` is outside the model) -/
+namespace C01
+
+theorem les_cons_cons (x y : Nat) (rest : Bytes) :
+    lastEntryStart (x :: y :: rest) =
+      if lastEntryStart (y :: rest) > 0 then lastEntryStart (y :: rest) + 1
+      else if x = NL ∧ y = GT then 1 else 0 := by
+  rw [lastEntryStart]
+
+theorem les_spec : ∀ (b : Bytes), lastEntryStart b ≤ b.length ∧
+    (0 < lastEntryStart b → (b.take (lastEntryStart b)).getLast? = some NL) := by
+  intro b
+  induction b with
+  | nil => simp [lastEntryStart]
+  | cons x xs ih =>
+    cases xs with
+    | nil => simp [lastEntryStart]
+    | cons y rest =>
+      rw [les_cons_cons]
+      by_cases h : lastEntryStart (y :: rest) > 0
+      · simp only [h, ↓reduceIte]
+        refine ⟨by have := ih.1; simp at this ⊢; omega, fun _ => ?_⟩
+        rw [List.take_succ_cons]
+        have hne : (y :: rest).take (lastEntryStart (y :: rest)) ≠ [] := by
+          intro e; have := ih.2 h; rw [e] at this; simp at this
+        rw [show x :: (y :: rest).take (lastEntryStart (y :: rest)) = [x] ++ (y :: rest).take (lastEntryStart (y :: rest)) from rfl,
+          getLast?_append_of_ne_nil _ _ hne]
+        exact ih.2 h
+      · simp only [h, ↓reduceIte]
+        by_cases h2 : x = NL ∧ y = GT
+        · simp [h2]
+        · simp [h2]
+
+theorem les_append_pair (a : Bytes) : lastEntryStart (a ++ [NL, GT]) = a.length + 1 := by
+  induction a with
+  | nil => decide
+  | cons x a' ih =>
+    cases hrest : a' ++ [NL, GT] with
+    | nil => simp at hrest
+    | cons y rest =>
+      rw [List.cons_append, hrest, les_cons_cons, ← hrest, ih]
+      simp
+
+theorem addNL_split (r : Bytes) : ∃ a, addNL r = a ++ [NL] := by
+  have h := addNL_getLast r
+  have hne := addNL_ne_nil r
+  refine ⟨(addNL r).dropLast, ?_⟩
+  have h1 := List.dropLast_concat_getLast hne
+  have h2 : (addNL r).getLast hne = NL := by
+    rw [List.getLast?_eq_some_getLast hne] at h
+    exact Option.some.inj h
+  rw [h2] at h1
+  exact h1.symm
+
+theorem fasta_laws : Laws Fmt.fasta (fun _ => True) (fun _ => True) where
+  cut_pos := by
+    intro c hc
+    simp only [Fmt.fasta, hasEntryBreak, decide_eq_true_eq] at hc ⊢
+    exact ⟨hc, (les_spec c).1⟩
+  cut_nl := by
+    intro c hc
+    simp only [Fmt.fasta, hasEntryBreak, decide_eq_true_eq] at hc ⊢
+    exact (les_spec c).2 hc
+  wf_drop := by intros; trivial
+  wf_final := by
+    intro r _ _
+    obtain ⟨a, ha⟩ := addNL_split r
+    simp only [Fmt.fasta, fixEnd, hasEntryBreak, decide_eq_true_eq]
+    rw [ha, List.append_assoc]
+    simp only [List.cons_append, List.nil_append]
+    rw [les_append_pair]
+    simp
+  cut_al := by intros; trivial
+  final_al := by intros; trivial
+
+/-- **C01.readAll_bytes_fasta** — wrapped (multi-line) FASTA: for EVERY file, chunk size and
+mode the delivered chunks concatenate to the newline-terminated file; each is non-empty and ends
+with a newline (entries are never split across chunks in the model: a chunk ends right before a
+header line). -/
+theorem readAll_bytes_fasta (mode : Mode) (file : Bytes) (k : Nat) (hk : 0 < k) :
+    (readAll Fmt.fasta true mode file k).flatten = norm file ∧
+    ∀ c ∈ readAll Fmt.fasta true mode file k, c ≠ [] ∧ c.getLast? = some NL := by
+  have h := readAll_bytes Fmt.fasta (fun _ => True) (fun _ => True) fasta_laws trivial mode file trivial k hk
+  exact ⟨h.1, fun c hc => ⟨(h.2 c hc).1, (h.2 c hc).2.1⟩⟩
+
+end C01
+
+/-! ### entries of n-line formats: chunks parse independently -/
+namespace C01
+
+theorem linesOf_length (b : Bytes) (h : b = [] ∨ b.getLast? = some NL) : (linesOf b).length = countNL b := by
+  induction b with
+  | nil => simp [linesOf, countNL]
+  | cons x xs ih =>
+    have hx : xs = [] ∨ xs.getLast? = some NL := by
+      cases xs with
+      | nil => exact Or.inl rfl
+      | cons y ys =>
+        right
+        rcases h with h | h
+        · simp at h
+        · simpa [List.getLast?_cons_cons] using h
+    rw [linesOf_cons, countNL_cons]
+    by_cases hnl : x = NL
+    · simp [hnl, ih hx]; omega
+    · simp only [hnl, ↓reduceIte, Nat.zero_add]
+      cases xs with
+      | nil => rcases h with h | h <;> simp at h; exact absurd h hnl
+      | cons y ys =>
+        have hne := linesOf_ne_nil (y :: ys) (by simp)
+        cases h1 : linesOf (y :: ys) with
+        | nil => exact absurd h1 hne
+        | cons l ls => rw [← ih hx, h1]; simp
+
+theorem groupsOf_append {α} (n : Nat) (hn : 0 < n) (l1 l2 : List α) (h : n ∣ l1.length) :
+    groupsOf n (l1 ++ l2) = groupsOf n l1 ++ groupsOf n l2 := by
+  obtain ⟨a, ha⟩ := h
+  unfold groupsOf
+  have hlen : (l1 ++ l2).length / n = a + l2.length / n := by
+    rw [List.length_append, ha, Nat.mul_add_div hn]
+  have hl1 : l1.length / n = a := by rw [ha, Nat.mul_div_cancel_left _ hn]
+  rw [hlen, hl1, List.range_add, List.map_append, List.map_map]
+  congr 1
+  · apply List.map_congr_left
+    intro i hi
+    have hi' : i < a := by simpa using hi
+    have hle : i * n + n ≤ l1.length := by
+      rw [ha]; calc i * n + n = (i + 1) * n := by rw [Nat.add_mul]; simp
+        _ ≤ a * n := Nat.mul_le_mul_right n hi'
+        _ = n * a := Nat.mul_comm _ _
+    rw [List.drop_append_of_le_length (by omega), List.take_append_of_le_length (by simp; omega)]
+  · apply List.map_congr_left
+    intro j _
+    simp only [Function.comp]
+    have : (a + j) * n = l1.length + j * n := by rw [Nat.add_mul, ha, Nat.mul_comm a n]
+    rw [this, ← List.drop_drop, List.drop_left' rfl]
+
+theorem entriesK_append (n : Nat) (hn : 0 < n) (a b : Bytes) (ha : a.getLast? = some NL)
+    (hal : n ∣ countNL a) : entriesK n (a ++ b) = entriesK n a ++ entriesK n b := by
+  unfold entriesK
+  rw [linesOf_append a b ha]
+  apply groupsOf_append n hn
+  rw [linesOf_length a (Or.inr ha)]; exact hal
+
+theorem entriesK_chunks (n : Nat) (hn : 0 < n) (cs : List Bytes)
+    (h : ∀ c ∈ cs, c ≠ [] ∧ c.getLast? = some NL ∧ n ∣ countNL c) :
+    (cs.map (entriesK n)).flatten = entriesK n cs.flatten := by
+  induction cs with
+  | nil => simp [entriesK, groupsOf, linesOf]
+  | cons c cs ih =>
+    simp only [List.map_cons, List.flatten_cons]
+    have hc := h c (by simp)
+    rw [entriesK_append n hn c _ hc.2.1 hc.2.2, ih (fun c hc => h c (by simp [hc]))]
+
+/-- **C01.entries_chunks_kLine** — FASTQ / two-line FASTA / delimited: the entries (groups of `n`
+lines) of the delivered chunks, concatenated in order, are exactly the entries of the
+newline-terminated file — for every chunk size and both modes. -/
+theorem entries_chunks_kLine (n : Nat) (hn : 0 < n) (mode : Mode) (file : Bytes)
+    (hwf : n ∣ countNL (norm file)) (k : Nat) (hk : 0 < k) :
+    ((readAll (Fmt.kLine n) true mode file k).map (entriesK n)).flatten = entriesK n (norm file) := by
+  have h := readAll_bytes_kLine n hn mode file hwf k hk
+  rw [entriesK_chunks n hn _ h.2, h.1]
+
+example : entriesK 2 [62,97,10,65,10,62,98,10,67,10] = [[[62,97],[65]],[[62,98],[67]]] := by decide
 
 end C01
